@@ -48,8 +48,8 @@ func drawSchedule(tape *sim.Tape) ([]uint64, int) {
 
 // drawIOChunks draws the buffer sizes the command's io.ReadAll / io.Copy will use (nil =
 // the standard library's own pattern). fine allows sizes down to 1 byte for small trees.
-func drawIOChunks(tape *sim.Tape, t *Tree, fine bool) []int {
-	total := 0
+func drawIOChunks(tape *sim.Tape, t *Tree, stdin []byte, fine bool) []int {
+	total := len(stdin)
 	for _, e := range t.Entries {
 		total += len(e.Data)
 	}
@@ -215,7 +215,7 @@ func C20Case(r *Runner, base string, tape *sim.Tape) *Outcome {
 	out := &Outcome{}
 	c := GenCase(tape, true)
 	sched, stick := drawSchedule(tape)
-	chunks := drawIOChunks(tape, c.Tree, false)
+	chunks := drawIOChunks(tape, c.Tree, c.Inv.Stdin, false)
 	ex := c.Inv.Expect(c.Tree)
 	out.stat("shape_"+c.Shape, 1)
 	if chunks != nil {
@@ -249,6 +249,10 @@ func C20Case(r *Runner, base string, tape *sim.Tape) *Outcome {
 	out.Sample = map[string]any{"shape": c.Shape, "args": c.Inv.Args(), "tree": DescribeTree(c.Tree), "ops": ff.Res.Ops}
 	if ff.Res.Deadlock {
 		out.V = &sim.Violation{Kind: "deadlock", Site: c.Shape, Detail: "the command stopped making progress (all goroutines blocked) in the fault-free run"}
+		return out
+	}
+	if ff.Res.Exit == -4 {
+		out.Infra = "the child's operation budget was exhausted (scenario too large for the chosen io buffer sizes): " + fmt.Sprint(c.Inv.Args())
 		return out
 	}
 	if ex.Unsure != "" || ex.Rejected {
